@@ -23,7 +23,7 @@ type query struct {
 	Tokens string // line-protocol tokens after `q` / `qa <fired>`; "" = not in the Lean model (monitor only)
 	Run    func(st *state.Store, ws memdb.WatchSet) (uint64, string)
 	// classification help for the monitor (which part of the name universe the query is about)
-	Key, Node, Service string
+	Key, Node, Service, Peer string
 }
 
 func (q *query) name() string {
